@@ -35,7 +35,7 @@ def sim(mode, ops):
                 ok = False
         elif k == "m":
             ok = all(h < len(live) and live[h] for h in (o[1], o[2]))
-        elif k in "ixX":
+        elif k in "ixXj":
             if o[1] < len(live) and live[o[1]]:
                 live[o[1]] = False
             else:
@@ -69,7 +69,7 @@ class C14(Prop):
     rule = ("random programs (<=40 ops) over a store of live handles in three modes: s = SharedString (public API), t = Cow<[Tracked]> "
             "(element type with a counting destructor, through the cfg(metrics_verif) re-export), k = Cow<[Label]> inside Key (public "
             "Key/Label API); constructors: static borrow, const_str/const_slice, owned with (len,cap) in {(0,0) via new(), (0,0) via "
-            "with_capacity(0), (0,n), (n,n), (n,m>n)}, shared from a caller-held Arc; clone, deref, cmp/eq/hash, into_owned, drop here or on "
+            "with_capacity(0), (0,n), (n,n), (n,m>n)}, shared from a caller-held Arc; clone, deref, cmp/eq/hash, into_owned, conversion to std::borrow::Cow (modes s, t), drop here or on "
             "another thread, with_extra_labels, caller Arc clone/drop, from_owned of a ZST vector (capacity usize::MAX -> panic); ~5% of the "
             "operations deliberately name a consumed handle (rejected by both sides). A case is non-trivial if some operation changes the "
             "number of live heap blocks; distinct = distinct (mode, program, outputs)")
@@ -135,7 +135,7 @@ class C14(Prop):
             r = rng.below(100)
             if rng.chance(1, 20) and live:
                 h = rng.below(len(live) + 1)                             # possibly consumed / non-existent
-                o = [rng.pick("ldixXw"), h] if rng.chance(3, 4) else ["m", h, rng.below(len(live) + 1)]
+                o = [rng.pick("ldixXwj" if mode != "k" else "ldixXw"), h] if rng.chance(3, 4) else ["m", h, rng.below(len(live) + 1)]
                 if o[0] == "w":
                     o.append(self._content(rng, mode, 2))
             elif r < 8 or not (lv or av):
@@ -160,8 +160,10 @@ class C14(Prop):
                 o = ["d", rng.pick(lv)]
             elif r < 77:
                 o = ["m", rng.pick(lv), rng.pick(lv)]
-            elif r < 84:
+            elif r < 81:
                 o = ["i", rng.pick(lv)]
+            elif r < 84:
+                o = ["j" if mode != "k" else "i", rng.pick(lv)]
             elif r < 92:
                 o = [rng.pick("xxX"), rng.pick(lv)]
             else:
@@ -173,7 +175,7 @@ class C14(Prop):
         if rng.chance(4, 5):
             for i, x in enumerate(live):
                 if x:
-                    ops.append([rng.pick("xxiX"), i])
+                    ops.append([rng.pick("xxiXj" if mode != "k" else "xxiX"), i])
             for i, x in enumerate(arcs):
                 for _ in range(x):
                     ops.append(["D", i])
@@ -228,6 +230,8 @@ class C14(Prop):
                 ops.append("Cmp %d%%nat %d%%nat" % (o[1], o[2]))
             elif k == "i":
                 ops.append("IntoOwned %d%%nat" % o[1])
+            elif k == "j":
+                ops.append("IntoStdCow %d%%nat" % o[1])
             elif k in "xX":
                 ops.append("Drop %d%%nat" % o[1])
             elif k == "w":
@@ -253,6 +257,8 @@ class C14(Prop):
                 t = "RBad"
             elif r.startswith("c"):
                 t = "RContent %s" % cq_bytes(bytes.fromhex(r[1:]))
+            elif r.startswith("jB") or r.startswith("jO"):
+                t = "RStd %s %s" % (cq_bool(r[1] == "B"), cq_bytes(bytes.fromhex(r[2:])))
             elif r.startswith("m"):
                 t = "RCmp %s" % cq_N(int(r[1:]))
             else:
@@ -278,7 +284,7 @@ class C14(Prop):
                 o = list(repl[1]) if repl and repl[0] == j else list(o)
                 k = o[0]
                 drop = False
-                if k in "ldixXwm":
+                if k in "ldixXwmj":
                     for pos in ([1, 2] if k == "m" else [1]):
                         h = o[pos]
                         if h in hmap:
@@ -329,7 +335,7 @@ class C14(Prop):
                 cands.append(rebuild(repl=(i, ["w", o[1], o[2][:-1]])))
             if o[0] == "X":
                 cands.append(rebuild(repl=(i, ["x", o[1]])))
-        if mode != "s" and not any(o[0] in "zsACD" for o in ops):
+        if mode != "s" and not any(o[0] in "zsACDj" for o in ops):
             cands.append(dict(mode="k" if mode == "t" else "t", ops=ops))
         return [x for x in cands if x["ops"]]
 
